@@ -318,6 +318,7 @@ class Verdict:
                 path = os.path.join(REPLAY, "%s-%d.json" % (self.pid, n))
                 with open(path, "w") as f:
                     json.dump({"property": self.pid, "key": key, "what": desc, "case": obj,
+                               "tier": evidence.get("tier", "quick"), "seed": evidence.get("seed", 1),
                                "occurrences": sum(1 for k, _, _ in self.violations if k == key)}, f)
                     f.write("\n")
                 print("VIOLATION property=%s replay=%s" % (self.pid, path))
